@@ -3,6 +3,7 @@ package faults
 import (
 	"bytes"
 	"crypto/sha256"
+	"encoding/binary"
 	"fmt"
 	"math/big"
 	"sort"
@@ -211,6 +212,22 @@ func StructuralOps(nd Node, quick bool) map[string]interface{} {
 	ops["nest40"] = Raw(nest)
 	switch v := nd.Val.(type) {
 	case []byte:
+		// a byte string that starts with a plausible 4-byte big-endian element count (e.g. the encoding of a
+		// polynomial): counts c for which c*k wraps around 2^32 for a small element size k, so that a
+		// multiplied bound check passes while the allocation does not
+		if len(v) >= 8 {
+			if c := binary.BigEndian.Uint32(v); c > 0 && int(c) <= len(v) {
+				for k := uint64(2); k <= 64; k++ {
+					w := (uint64(1)<<32 + k - 1) / k
+					m := append([]byte{}, v...)
+					binary.BigEndian.PutUint32(m, uint32(w))
+					ops[fmt.Sprintf("count-wraps-times-%d", k)] = m
+				}
+				m := append([]byte{}, v...)
+				binary.BigEndian.PutUint32(m, 0xffffffff)
+				ops["count-max"] = m
+			}
+		}
 		if len(v) > 0 {
 			ops["trunc1"] = append([]byte{}, v[:len(v)-1]...)
 			ops["ext1"] = append(append([]byte{}, v...), 0)
